@@ -136,6 +136,57 @@ def run(tier):
             elif x.get("ok") and isinstance(x.get("accepted"), dict):
                 C.violation({"kind": "utf8", "src": src, "ctx": cn}, "render produced invalid UTF-8: %s with %s" % (src, cn), {"job": job, "step": k})
     C.sample({"render": meta[len(meta) // 3][0], "context": meta[len(meta) // 3][1]})
+    # ---- reference plantings (Refs.tla): an unknown name at any position must be refused at add time, nothing registered
+    import c07_refs
+    rr = vp.tlc("Refs", "Refs", workers=2, timeout=600, name="c07-refs")
+    C.add_tlc(rr, "Refs (reference plantings)")
+    pjobs = []
+    plant = [v for v in rr.tags["VEC"] if v["mode"] == "planting"]
+    drops = [v for v in rr.tags["VEC"] if v["mode"] == "drop-provider"]
+    # histories: provider + user accepted, then the provider is re-added WITHOUT the component
+    djobs = []
+    for v in drops:
+        tpls = c07_refs.planting("component", v["pos"])
+        user = [[n, s_.replace("<nocomp/>", "<prov/>")] for n, s_ in tpls if n != "lib.html"]
+        lib = [t for t in tpls if t[0] == "lib.html"]
+        prov = ["prov.html", "{% component prov() %}P{% endcomponent prov %}"]
+        djobs.append({"cfg": {}, "ctx": {}, "steps": [{"op": "add", "tpls": lib + [prov] + user}, {"op": "state"}, {"op": "render", "name": "t.html"},
+                                                       {"op": "add", "tpls": [["prov.html", "no component any more"]]}, {"op": "state"}, {"op": "render", "name": "t.html"}]})
+    dres = vp.run_jobs(djobs, tag="c07-drops", timeout=600)
+    for v, b, job in zip(drops, dres, djobs):
+        C.count()
+        C.nontrivial(["drop-provider", v["pos"]])
+        key = {"kind": "drop-provider", "pos": v["pos"]}
+        if any(x.get("panic") or x.get("abort") for x in b):
+            C.violation(dict(key, kind="panic"), "panic/abort after re-adding a component provider without the component used at %s: %s" % (v["pos"], [x.get("msg") or x.get("rc") for x in b if x.get("panic") or x.get("abort")]),
+                        {"job": job, "result": b})
+        elif not b[0].get("ok"):
+            C.violation(dict(key, kind="setup"), "provider + user set refused: %s" % (b[0].get("msg") or b[0].get("disp", ""))[:200], {"job": job})
+        elif b[3].get("ok") or b[1] != b[4] or (b[2].get("ok"), b[2].get("out")) != (b[5].get("ok"), b[5].get("out")):
+            C.violation(key, "re-adding the provider without the component used at %s: accepted=%s, registry changed=%s, render before %r / after %r" % (
+                v["pos"], b[3].get("ok"), b[1] != b[4], b[2].get("out"), b[5].get("out") if b[5].get("ok") else b[5].get("kind")), {"job": job, "result": b})
+    for v in plant:
+        tpls = c07_refs.planting(v["kind"], v["pos"])
+        good = [t for t in tpls if t[0] == "lib.html"]
+        # (1) the batch with the planting, into an empty instance; (2) the same planting added on top of a valid instance
+        pjobs.append({"cfg": {}, "steps": [{"op": "add", "tpls": tpls}, {"op": "names"}]})
+        pjobs.append({"cfg": {}, "steps": [{"op": "add", "tpls": good + [["t.html", "fine"]]}, {"op": "state"}, {"op": "add", "tpls": [t for t in tpls if t[0] != "lib.html"]},
+                                           {"op": "state"}, {"op": "render", "name": "t.html"}]})
+    pres = vp.run_jobs(pjobs, tag="c07-refs", timeout=600)
+    for i, v in enumerate(plant):
+        a, b = pres[2 * i], pres[2 * i + 1]
+        C.count(2)
+        C.nontrivial(["planting", v["kind"], v["pos"]])
+        key = {"kind": "planting", "ref": v["kind"], "pos": v["pos"]}
+        if any(x.get("panic") or x.get("abort") for x in a + b):
+            C.violation(dict(key, kind="panic"), "panic registering a template with an unknown %s at %s" % (v["kind"], v["pos"]), {"job": pjobs[2 * i]})
+            continue
+        if a[0].get("ok") or a[1].get("names"):
+            C.violation(key, "an unknown %s at position %s was %s at registration (templates left registered: %s): %s" % (
+                v["kind"], v["pos"], "accepted" if a[0].get("ok") else "refused", a[1].get("names"), pjobs[2 * i]["steps"][0]["tpls"][-1][1]), {"job": pjobs[2 * i], "result": a})
+        if b[2].get("ok") or b[1] != b[3] or b[4].get("out") != "fine":
+            C.violation(dict(key, history="on-top"), "adding an unknown %s at %s on top of a valid instance: accepted=%s, instance changed=%s, t.html renders %r" % (
+                v["kind"], v["pos"], b[2].get("ok"), b[1] != b[3], b[4].get("out")), {"job": pjobs[2 * i + 1], "result": b})
     C.assumptions += ["abstract contexts over-approximate: every name load / call result is any of 18 abstract values; loops run 0, 1 or 2+ times",
                       "calls into blocks / super / components / includes are verified modularly (each chunk from an empty stack)",
                       "panics on values outside the weird-value universe are not excluded"]
